@@ -229,6 +229,12 @@ pub fn run(report: &Report, thorough: bool) -> Evidence {
                 o.churn = idx % 4 == 2;
                 // ... and every eighth is a context created for a fixed layout and switched to phonetic by update-engine
                 o.via_switch = idx % 8 == 4;
+                // candidate clause: every third job runs over a user auto-correct file with entries for short words of the walks
+                // (one of them empty, one that transliterates to nothing): the plain transliteration stays a candidate next to them
+                crate::drv::clear_user_files(&o);
+                if lists && idx % 3 == 0 {
+                    std::fs::write(o.user_autocorrect_file(), r#"{"a":"kha","k":"","s":"`","ak":"bangladesh","ka":"ko","as":"ash","1":"ek","aa":"a","sk":"skul","ami":"tumi","bd":"bangladesh"}"#).expect("user auto-correct");
+                }
                 let mut ctx = Ctx::new(&o).expect("ctx");
                 ctx.with_pre = !lists;
                 let mut d = Dfs { ctx, avro: &avro, report, alphabet, checked: 0, events: 0, text: String::new(), lists, samples: &samples, part: name };
